@@ -13,7 +13,9 @@
 //	c16 lib <root> <dyn|nodyn>               basm on every *.basm under <root>, each one standalone
 //	c16 files <kind> <dyn|nodyn> <minws|-> f1.basm f2.basm ...   basm on a file set (output of neuralbond / bmqsim + library)
 //	c16 text <file>                          basm on one source (replay)
-//	c16 json <kind> <what> <bm.json>         a machine saved by a front-end CLI (bondgo -save-bondmachine, ...)
+//	c16 json <kind> <what> <bm.json> [asm_0 asm_1 ...]   a machine saved by a front-end CLI (bondgo -save-bondmachine, ...)
+//	                                         and the assembly the front-end saved per processor (-save-assembly): their
+//	                                         instruction counts are sent as `AL n0,n1,...`
 package main
 
 import (
@@ -36,6 +38,9 @@ var out = basmdump.Protocol()
 // text of the assembled file set (files mode): sent as `FS <text>` so that the oracle can read its cpdef / ioatt lines
 var fileSetText string
 
+// instruction counts of the assembly texts a front-end saved next to the machine (json mode), per processor
+var asmLens []string
+
 func report(id int, kind string, mustFail bool, what string, bm *bondmachine.Bondmachine, stage string, err error) {
 	mf := 0
 	if mustFail {
@@ -43,6 +48,9 @@ func report(id int, kind string, mustFail bool, what string, bm *bondmachine.Bon
 	}
 	out.Line("CASE %d %s mustfail=%d", id, kind, mf)
 	out.Line("F %s", what)
+	if len(asmLens) > 0 {
+		out.Line("AL %s", strings.Join(asmLens, ","))
+	}
 	if fileSetText != "" {
 		out.Line("FS %s", strings.ReplaceAll(strings.TrimRight(fileSetText, "\n"), "\n", "\\n"))
 	}
@@ -127,6 +135,17 @@ func main() {
 					bm = (&bmj).Dejsoner()
 				}()
 			}
+		}
+		for _, af := range os.Args[5:] {
+			n := 0
+			if t, e := os.ReadFile(af); e == nil {
+				for _, l := range strings.Split(string(t), "\n") {
+					if strings.TrimSpace(l) != "" {
+						n++
+					}
+				}
+			}
+			asmLens = append(asmLens, strconv.Itoa(n))
 		}
 		report(0, os.Args[2], false, os.Args[3], bm, "load", err)
 	}
